@@ -79,7 +79,12 @@ Step(r) ==
       [] r.ev = "Proof"      -> RecvProof(r.a.p, MsgOf(r.a), Oracle(r))
       [] r.ev = "Restart"    -> Restart
       [] r.ev = "Quiescent"  -> QuiescentOk(r.a)
-      [] OTHER               -> FALSE   \* Panic, BadRequest: never a step of the specification
+      [] r.ev = "Panic"      -> \* the only deliberate abort: a valid second proof (from genesis) confirms a long fork
+                                /\ r.a.during = "Proof" /\ r.a.msg = "long fork detected"
+                                /\ peer[r.a.args.p].req.on /\ peer[r.a.args.p].req.fork
+                                /\ r.a.args.kind = "honest"
+                                /\ UNCHANGED <<now, peer, tip, tipTD, lastN>>
+      [] OTHER               -> FALSE   \* other panics, BadRequest: never a step of the specification
 
 TraceInit == l = 1 /\ LoadInit(Rec[1])
 
